@@ -40,6 +40,9 @@ def cases(tier, seed):
     return out
 
 
+ASSIGNED_REASONS = set(range(0, 12)) | {12, 13, 14, 15, 16}   # the codes the repository's enumeration knows (RFC 9171 + RFC 9172)
+
+
 def _directed():
     out = []
     base_pri = dict(version=7, flags=0, crc_type=0, dest='dtn://dst/', src='dtn://src/', report_to='dtn:none',
@@ -70,6 +73,25 @@ def _directed():
     for nblk in (21, 22, 23, 24, 25, 30, 254, 255, 256, 300):
         blocks = [dict(type=192 + (idx % 5), num=idx + 2, flags=0, crc_type=idx % 3, data=bytes([idx & 0xFF]) * (idx % 4), crc=None) for idx in range(nblk - 1)]
         out.append(dict(primary=dict(base_pri, crc_type=nblk % 3), blocks=blocks + [dict(pay)]))
+    # blocks of known types whose data is not what the type says (e.g. encrypted by a confidentiality block): kept opaque, never an error
+    for btype in (6, 7, 10, 11, 12):
+        for data in (b'\x40', b'\x80', b'\x00', b'\x41\x00', b'\xa0', b'\xf6', b'\x82\x01', b'\x18', b'\xff', b'', bytes(range(40, 75))):
+            out.append(dict(primary=dict(base_pri), blocks=[dict(type=btype, num=4, flags=0, crc_type=1, data=data, crc=None), dict(pay)], _typed=False, _opaque=True))
+    # administrative records other than status reports, including "falsy" contents; unassigned and large reason codes
+    for content in (0, False, [], {}, b'', '', None, 7, [1, 2], {1: 2}, 'text'):
+        for rtype in (2, 9, 65536):
+            out.append(dict(primary=dict(base_pri, flags=bpv7.FLAG_ADMIN), blocks=[dict(pay, data=cw.enc([rtype, content]))]))
+    for reason in list(range(0, 20)) + [255, 256, 2 ** 32]:
+        adm = dict(status=[(True, None), (False, None), (False, None), (True, None)], reason=reason, src='dtn://s/', create_time=3, seqno=4,
+                   frag_offset=None, payload_len=None)
+        out.append(dict(primary=dict(base_pri, flags=bpv7.FLAG_ADMIN), blocks=[dict(pay, data=bpv7.encode_status_report(**adm))], admin=adm,
+                        _skip_d1=reason not in ASSIGNED_REASONS))
+    # a fragment of an administrative record bundle carries a slice of the record
+    adm = dict(status=[(True, 5), (False, None), (True, 0), (True, 2 ** 40)], reason=1, src='dtn://s/', create_time=3, seqno=4, frag_offset=None, payload_len=None)
+    record = bpv7.encode_status_report(**adm)
+    for (lo, hi) in ((0, 5), (5, len(record)), (3, 9)):
+        out.append(dict(primary=dict(base_pri, flags=bpv7.FLAG_ADMIN | bpv7.FLAG_IS_FRAGMENT, frag_offset=lo, total_adu_len=len(record)),
+                        blocks=[dict(pay, data=record[lo:hi])]))
     for eid in ('dtn:none', 'dtn://a/', 'dtn://a/b', 'dtn://node.example-1_x/svc/sub~!$&\'()*+,;=:@', 'ipn:0.0', 'ipn:1.2'):
         out.append(dict(primary=dict(base_pri, dest=eid, src=eid, report_to=eid), blocks=[dict(pay)]))
     return out
@@ -83,9 +105,13 @@ def check_bundle(bundle, obs, typed):
     want.pop('admin', None)
     is_frag = bool(bundle['primary']['flags'] & bpv7.FLAG_IS_FRAGMENT)
 
+    opaque = bool(bundle.pop('_opaque', False))
+    skip_d1 = bool(bundle.pop('_skip_d1', False))
     # (1) values -> real encoder -> oracle decoder
     enc_real = None
     try:
+        if skip_d1:
+            raise _Skip()
         real = gen.to_real(bundle, typed=typed)
         real.fill_fields()
         real.update_all_crc()
@@ -102,6 +128,8 @@ def check_bundle(bundle, obs, typed):
             if gen.strip_crc(dec) != want:
                 viols.append(('d1', 'fields decoded from the real encoding differ: %s' % _diff(want, gen.strip_crc(dec)),
                               dict(enc=enc_real.hex()[:400])))
+    except _Skip:
+        pass
     except Exception as err:  # pylint: disable=broad-except
         viols.append(('d1', 'real encoder raised %s: %s' % (type(err).__name__, err), {}))
 
@@ -140,7 +168,7 @@ def check_bundle(bundle, obs, typed):
         # typed views of known blocks
         view = gen.typed_view(back)
         for blk in bundle['blocks']:
-            if blk['type'] in (6, 7, 10):
+            if blk['type'] in (6, 7, 10) and not opaque:
                 obs['typed_blocks'] += 1
                 val = cw.parse_all(blk['data']).to_python()
                 if blk['type'] == 6:
@@ -157,7 +185,8 @@ def check_bundle(bundle, obs, typed):
             adm = bundle['admin']
             exp = ('status', [(flag, when) for (flag, when) in adm['status']], adm['reason'], adm['src'], adm['create_time'],
                    adm['seqno'], adm['frag_offset'], adm['payload_len'])
-            if view.get(1) != exp:
+            if view.get(1) != exp and (adm['reason'] in ASSIGNED_REASONS or view.get(1) is not None):
+                # (a report with an unassigned reason code may stay opaque; it must still decode and re-encode unchanged, see above)
                 viols.append(('d3', 'status report decoded as %r, expected %r' % (view.get(1), exp), dict(enc=enc_orc.hex()[:400])))
     except Exception as err:  # pylint: disable=broad-except
         viols.append(('d3', 'real decoder raised %s: %s' % (type(err).__name__, err), dict(enc=enc_orc.hex()[:400])))
@@ -167,6 +196,10 @@ def check_bundle(bundle, obs, typed):
     if is_frag:
         obs['fragments'] += 1
     return viols, enc_orc
+
+
+class _Skip(Exception):
+    pass
 
 
 def _first_diff(one, two):
@@ -216,7 +249,7 @@ def run_case(case):
     violations = []
     classes = set()
     if case['kind'] == 'directed':
-        items = [(bundle, idx % 2 == 0) for idx, bundle in enumerate(_directed())]
+        items = [(bundle, bundle.pop('_typed', idx % 2 == 0)) for idx, bundle in enumerate(_directed())]
     else:
         rng = random.Random(case['seed'])
         items = []
